@@ -76,11 +76,12 @@ struct SrcBuf
 {
   T  *p;
   int len;
-  SrcBuf (int n, int base) : p (0), len (n)
+  // reversed: memory index k holds value base + (n-1-k) (for the non-contiguous WalkIt iterators)
+  SrcBuf (int n, int base, bool reversed = false) : p (0), len (n)
   {
     p = static_cast<T *> (std::malloc (static_cast<std::size_t> (n > 0 ? n : 1) * sizeof (T)));
     for (int k = 0; k < n; ++k)
-      construct_elem (p + k, base + k);
+      construct_elem (p + k, reversed ? base + (n - 1 - k) : base + k);
   }
   ~SrcBuf ()
   {
@@ -204,14 +205,14 @@ struct RangeDispatchMove
       }
       case IT_MV_FWD:
       {
-        SrcBuf<T> src (len, base);
+        SrcBuf<T> src (len, base, true);
         typedef WalkIt<T, T&, std::forward_iterator_tag> It;
         fn (std::make_move_iterator (It (src.p, rl, 0)), std::make_move_iterator (It (src.p, rl, len)));
         return true;
       }
       case IT_MV_RA:
       {
-        SrcBuf<T> src (len, base);
+        SrcBuf<T> src (len, base, true);
         typedef WalkIt<T, T&, std::random_access_iterator_tag> It;
         fn (std::make_move_iterator (It (src.p, rl, 0)), std::make_move_iterator (It (src.p, rl, len)));
         return true;
@@ -263,21 +264,21 @@ struct RangeDispatch<T, SV, true>
       }
       case IT_FWD:
       {
-        SrcBuf<T> src (len, base);
+        SrcBuf<T> src (len, base, true);
         typedef WalkIt<T, const T&, std::forward_iterator_tag> It;
         fn (It (src.p, rl, 0), It (src.p, rl, len));
         return true;
       }
       case IT_BIDI:
       {
-        SrcBuf<T> src (len, base);
+        SrcBuf<T> src (len, base, true);
         typedef WalkIt<T, const T&, std::bidirectional_iterator_tag> It;
         fn (It (src.p, rl, 0), It (src.p, rl, len));
         return true;
       }
       case IT_RA:
       {
-        SrcBuf<T> src (len, base);
+        SrcBuf<T> src (len, base, true);
         typedef WalkIt<T, const T&, std::random_access_iterator_tag> It;
         fn (It (src.p, rl, 0), It (src.p, rl, len));
         return true;
